@@ -42,7 +42,8 @@ STUBS = ['value recipes (sim/values.py)', 'nothing else: dumpers, loaders and bo
 
 KEY_STRS = ['a', 'b', 'c', 'key', 'k1', 'k2', 'zeta', 'Alpha', 'alpha', 'x y', 'yes', 'no', 'null', '~', '1', '10', '2', '1.5',
             '0x1F', '2001-01-01', 'a: b', '- x', '#c', "it's", 'café', '中文', '\U0001F600', '', ' ', 'UPPER',
-            'multi\nline', 'tab\there', 'x' * 70, '<<', '=', '!t', '&a', '*a', '[', '{', 'true', 'on', 'off', 'N', 'y']
+            'multi\nline', 'tab\there', 'x' * 70, '<<', '=', '!t', '&a', '*a', '[', '{', 'true', 'on', 'off', 'N', 'y',
+            'cafe\u0301', '\u212b', '\uff21b', '\ufb01n', 'stra\u00dfe', '\u01c5', 'e\u0301\u0323', '\u1e69']
 
 
 def plan(tier):
@@ -199,7 +200,15 @@ def neighbour(r, rc):
         return ['date', rc[1], rc[2], rc[3] % 28 + 1]
     if t == 'str':
         v = rc[1]
-        return ['str', r.choice([v + ' ', v.upper(), v.lower(), v + '0', '0' + v, v + v[-1:], v[:-1]])]
+        cands = [v + ' ', v.upper(), v.lower(), v + '0', '0' + v, v + v[-1:], v[:-1]]
+        # twins under the equivalences a "smarter" collation might apply: canonical / compatibility normalisation, case
+        # folding - distinct keys all the same, and their order must be a function of the keys
+        import unicodedata
+        tw = [unicodedata.normalize(f, v) for f in ('NFC', 'NFD', 'NFKC', 'NFKD')] + [v.casefold(), v.swapcase()]
+        tw = [x for x in tw if x != v]
+        if tw and r.random() < 0.6:
+            return ['str', r.choice(tw)]
+        return ['str', r.choice(cands)]
     if t == 'int':
         return r.choice([['int', rc[1] + 1], ['int', -rc[1]], ['float', repr(rc[1] + 0.5)]])
     if t == 'float':
@@ -306,6 +315,11 @@ def generate(seed, tier):
             primes.append([['other', recipe if rp.random() < 0.7 else equal_variant(rp, recipe), {'opts': alt, 'dumper': odumper}]])
         elif x < 0.8:
             primes.append([equal_variant(rp, recipe)])
+        elif x < 0.83:
+            # a dump cut short by a failing write() after anchors were handed out (same value, or one with shared parts)
+            primes.append([['failwrite', recipe if rp.random() < 0.6 else ['list', [['shared', 1, ['list', [['int', 1]], 990001]], ['shared', 1, ['list', [['int', 1]], 990001]],
+                                                                                    ['shared', 2, ['dict', [[['str', 'k'], ['int', 2]]], 990002]], ['shared', 2, ['dict', [[['str', 'k'], ['int', 2]]], 990002]]], 990000],
+                            rp.choice([0, 1, 3, 8, 20, 50])]])
         elif x < 0.86:
             # a stream-less dump that fails half-way (the second document cannot be represented) after text was produced
             primes.append([['fail', equal_variant(rp, recipe) if rp.random() < 0.5 else recipe]])
